@@ -157,3 +157,8 @@ def run(ctx: Ctx):
     from .c18 import check_get_code_forwards
 
     check_get_code_forwards(ctx, "R07.b", "stiff_states")
+    from .c12 import check_generator_purity
+
+    # stiff_states arrives as a keyword of CodeGenerator.scheme: a text remembered from an earlier call would be the
+    # text for the earlier subset
+    check_generator_purity(ctx, "R07.b", only={"scheme"})
